@@ -210,7 +210,7 @@ def r6_errors_persisted(cx):
     ok = False
     if docs:
         d = dict((const_str(k), U(v)) for k, v in zip(docs[0].value.keys, docs[0].value.values))
-        ok = d.get("errors") == "errors" and d.get("name") == "name" and d.get("results") in ("results if results else None", "results") and "exec_time" in d and "ser_time" in d
+        ok = d.get("errors") == "errors" and d.get("name") == "name" and d.get("results") in ("results if results else None", "results or None", "results") and "exec_time" in d and "ser_time" in d
     cx.require(ok, docs[0] if docs else fn, "the metadata document carries name, results, errors and timings", construct=short(docs[0], 140) if docs else "(none)")
     dumps = [x for x in find_calls(fn.body) if U(x.func) in ("ser.dump",)]
     ok = False
